@@ -481,7 +481,13 @@ func runRuleScenarios(seed int64, cw *CaseWriter, rep *lib.Report, r *lib.Rand) 
 	h.Exec(Op{Kind: "delegate", A: tgt0 + 3, V: v0, Amt: fx(100)})
 	h.Exec(Op{Kind: "block", Dt: 5 * sec})
 	h.Exec(Op{Kind: "undelegate", A: 0, V: v0, Amt: fx(500)})
+	h.Exec(Op{Kind: "undelegate", A: 0, V: v0, Amt: fx(30)}) // same block, same validator: ONE merged entry, TWO queue pairs
+	h.Exec(Op{Kind: "undelegate", A: 1, V: v0, Amt: fx(70)}) // another delegator in between
+	h.Exec(Op{Kind: "undelegate", A: 0, V: v0, Amt: fx(20)}) // a third pair of the source in the same slice
 	h.Exec(Op{Kind: "redelegate", A: 0, V: v0, W: v1, Amt: fx(400)})
+	h.Exec(Op{Kind: "redelegate", A: 0, V: v0, W: v1, Amt: fx(40)})
+	h.Exec(Op{Kind: "redelegate", A: 1, V: v0, W: v1, Amt: fx(40)})
+	h.Exec(Op{Kind: "redelegate", A: 0, V: v0, W: v1, Amt: fx(10)})
 	h.Exec(Op{Kind: "undelegate", A: tgt0 + 2, V: v0, Amt: fx(100)}) // everything: only the unbonding record remains
 	h.Exec(Op{Kind: "redelegate", A: tgt0 + 3, V: v0, W: v1, Amt: fx(100)})
 	h.Exec(Op{Kind: "block", Dt: 5 * sec})
